@@ -1,36 +1,43 @@
 (* C02, Maven part: ordering agrees with ComparableVersion (Maven 3.6 algorithm, Spec/MavenSpec.v).
-   Statements only. *)
+   Statements only.  The model follows the tree through two booleans read by gotables from
+   maven.go; z below is the variant of the zero test of the trimming loop (false:
+   isEmptyMavenElem tests the spelling "0", as found; true: every all-zero numeral is empty,
+   the repair of F-C02-11); mvn_parse = mvn_parse_with mvn_fix_zero_spelling is the tree's. *)
 From DepsDev Require Import Lib.Base Semver.Version Semver.Compare Semver.Maven Semver.MavenParse Semver.MavenDomain
-  Semver.MavenItems Semver.Maven_proofs Semver.MavenSpec_proofs Spec.MavenSpec.
+  Semver.MavenItems Semver.Maven_proofs Semver.MavenSpec_proofs Spec.MavenSpec Gen.MavenVariants.
 Local Open Scope Z_scope.
 
 (* The full statement on the property's domain (D_mvn minus a release-equivalent qualifier
-   followed by a number, as a predicate on strings). *)
-Definition C02_maven_full : Prop := forall sa sb a b,
+   followed by a number, as a predicate on strings), for a variant z of the parser. *)
+Definition C02_maven_full_with (z : bool) : Prop := forall sa sb a b,
   d_mvn_c02_str sa = true -> d_mvn_c02_str sb = true ->
-  mvn_parse sa = Some (Ok a) -> mvn_parse sb = Some (Ok b) ->
+  mvn_parse_with z sa = Some (Ok a) -> mvn_parse_with z sb = Some (Ok b) ->
   compare a b = Ok (mspec_compare sa sb).
+Definition C02_maven_full : Prop := C02_maven_full_with mvn_fix_zero_spelling.
 
-(* It is false on the code as it stands.  F-C02-11: isEmptyMavenElem tests the spelling "0", so
-   a zero component spelled 00 is not trimmed: 1.00 > 1 here, equal in ComparableVersion. *)
-Theorem C02_maven_refuted : ~ C02_maven_full.
+(* It is false under both variants.  F-C02-15: a release-equivalent qualifier right before
+   -SNAPSHOT is trimmed away here, ComparableVersion keeps its (emptied) nesting level:
+   1-final-SNAPSHOT = 1-SNAPSHOT here, > in ComparableVersion; both strings are in the domain. *)
+Theorem C02_maven_refuted : forall z, ~ C02_maven_full_with z.
 Proof.
-  intros F. destruct maven_zero_witness as [W1 [W2 _]]. unfold mvn_cmp_strings in W1.
-  change (mvn_parse_with false) with mvn_parse in W1.
-  destruct (mvn_parse s_1_00) as [[a| | |]|] eqn:Pa; try discriminate.
-  destruct (mvn_parse s_1) as [[b| | |]|] eqn:Pb; try discriminate.
-  rewrite (F s_1_00 s_1 a b eq_refl eq_refl Pa Pb), W2 in W1. discriminate.
+  intros z F. destruct (maven_nulldash_witness z) as [W1 [D1 [D2 W2]]]. unfold mvn_cmp_strings in W1.
+  destruct (mvn_parse_with z s_1_final_snapshot) as [[a| | |]|] eqn:Pa; try discriminate.
+  destruct (mvn_parse_with z s_1_snapshot) as [[b| | |]|] eqn:Pb; try discriminate.
+  rewrite (F _ _ a b D1 D2 Pa Pb), W2 in W1. discriminate.
 Qed.
 Print Assumptions C02_maven_refuted.
 
-Theorem C02_maven_refuted_witnesses :
-  (* F-C02-11; third clause: with the repaired test (switch mvn_fix_zero_spelling) the pair agrees *)
-  (mvn_cmp_strings false s_1_00 s_1 = Some 1 /\ mspec_compare s_1_00 s_1 = 0 /\ mvn_cmp_strings true s_1_00 s_1 = Some 0) /\
-  (* F-C02-15: a release-equivalent qualifier right before -SNAPSHOT: both strings are in the
-     property's domain, ComparableVersion keeps the emptied nesting level and orders them *)
-  (mvn_cmp_strings false s_1_final_snapshot s_1_snapshot = Some 0 /\ d_mvn_c02_str s_1_final_snapshot = true /\
-   d_mvn_c02_str s_1_snapshot = true /\ mspec_compare s_1_final_snapshot s_1_snapshot = 1).
-Proof. exact (conj maven_zero_witness maven_nulldash_witness). Qed.
+(* F-C02-11: with the zero test as found 1.00 > 1, ComparableVersion says equal; with the
+   repaired test the pair agrees.  Second theorem: what the tree does. *)
+Theorem C02_maven_zero_variants :
+  mvn_cmp_strings false s_1_00 s_1 = Some 1 /\ mspec_compare s_1_00 s_1 = 0 /\ mvn_cmp_strings true s_1_00 s_1 = Some 0.
+Proof. exact maven_zero_witness. Qed.
+
+Theorem C02_maven_zero_tree :
+  mvn_cmp_strings mvn_fix_zero_spelling s_1_00 s_1 = (if go_mvn_zero_spelling_fixed then Some 0 else Some 1) /\
+  mspec_compare s_1_00 s_1 = 0.
+Proof. exact maven_zero_tree. Qed.
+Print Assumptions C02_maven_zero_tree.
 
 (* What holds, for ALL element lists of the domain c02_wide_b (the proved domain d_mvn_wide of
    C01 -- which contains D_mvn -- with numerals not negative, the last prefix numeral not 0 by
@@ -38,10 +45,12 @@ Proof. exact (conj maven_zero_witness maven_nulldash_witness). Qed.
    is ComparableVersion's comparison of the item trees the lists stand for (a '-'-attached
    element opens a sub-list, qualifiers through ALIASES).  The qualifier table regenerated
    from maven.go is related to QUALIFIERS inside the proof (rank = order + 7 on every key).
-   Missing for the full statement: that the parser with the repaired zero test maps a string of
-   the domain to the element list whose tree is the normalised ComparableVersion of the string;
-   the harness checks this on every generated string (kind svm_maven_tie), leaving out the
-   classes of F-C02-15 and versions 0 / 0-qualifier (leading zero dropped by ComparableVersion). *)
+   The theorem does not depend on the variant.  Missing for the full statement: that the parser
+   with the repaired zero test maps a string of the domain to the element list whose tree is the
+   normalised ComparableVersion of the string; the harness checks this on every generated
+   string (kind svm_maven_tie), leaving out the class of F-C02-15 and versions 0 / 0-qualifier
+   (leading zero dropped by ComparableVersion).  With the test as found, the last prefix
+   numeral can be a 00 (value 0): those lists are outside c02_wide_b, which is F-C02-11. *)
 Theorem C02_maven_partial : forall l1 l2, c02_wide_b l1 = true -> c02_wide_b l2 = true ->
   maven_compare l1 l2 = Ok (item_cmp (items_of l1) (items_of l2)).
 Proof. intros l1 l2 H1 H2. apply maven_spec_agree; apply c02_wide_b_hyp; auto. Qed.
@@ -56,7 +65,7 @@ Print Assumptions C02_maven_table.
 (* Non-vacuity: 1.0-alpha-1 and 1.0-SNAPSHOT parse into the domain, their lists stand for the
    normalised ComparableVersion trees of the strings, and both sides say -1. *)
 Example C02_maven_nonvacuous :
-  match mvn_parse s_1_0_alpha_1, mvn_parse s_1_0_snapshot with
+  match mvn_parse_with false s_1_0_alpha_1, mvn_parse_with false s_1_0_snapshot with
   | Some (Ok a), Some (Ok b) =>
       c02_wide_b (mvn_elems a) = true /\ c02_wide_b (mvn_elems b) = true /\
       items_of (mvn_elems a) = comparable_version s_1_0_alpha_1 /\
